@@ -1,4 +1,5 @@
 mod common;
+mod c12;
 mod c20;
 
 fn main() {
@@ -9,6 +10,7 @@ fn main() {
     };
     let opts = common::parse_opts(&args[1..]);
     let code = match which.to_ascii_lowercase().as_str() {
+        "c12" => c12::run(opts),
         "c20" => c20::run(opts),
         other => {
             eprintln!("unknown check {other}");
